@@ -81,6 +81,7 @@ type EventClause struct {
 	Name string
 	Args []SExpr
 	Text string
+	When SExpr // optional condition over parameters and results: the event is recorded only when it holds
 }
 
 type PredDef struct {
@@ -269,15 +270,27 @@ func (ss *SpecSet) LoadSpecFile(path, pkgPath string) error {
 				}
 			}
 		case "event":
-			e, err := ParseSpecExpr(r.text)
+			evText, whenText := r.text, ""
+			if j := strings.Index(r.text, " when "); j >= 0 {
+				evText, whenText = strings.TrimSpace(r.text[:j]), strings.TrimSpace(r.text[j+6:])
+			}
+			e, err := ParseSpecExpr(evText)
 			if err != nil {
 				return fail(err)
 			}
 			call, ok := e.(SCall)
 			if !ok || cur == nil {
-				return fail(fmt.Errorf("event needs the form name(args...) inside a func"))
+				return fail(fmt.Errorf("event needs the form name(args...) [when cond] inside a func"))
 			}
-			cur.Events = append(cur.Events, EventClause{Name: call.Fn, Args: call.Args, Text: r.text})
+			ec := EventClause{Name: call.Fn, Args: call.Args, Text: r.text}
+			if whenText != "" {
+				w, err := ParseSpecExpr(whenText)
+				if err != nil {
+					return fail(err)
+				}
+				ec.When = w
+			}
+			cur.Events = append(cur.Events, ec)
 		case "trusted":
 			cur.Trusted = true
 		case "maypanic":
@@ -416,6 +429,9 @@ func (ss *SpecSet) LoadSpecFile(path, pkgPath string) error {
 				return fail(err)
 			}
 			pd.Body = e
+			if prev, dup := ss.Preds[pd.Name]; dup && prev.Text != pd.Text {
+				return fail(fmt.Errorf("pred %s is defined twice with different bodies (pred names are global)", pd.Name))
+			}
 			ss.Preds[pd.Name] = pd
 		case "axiom":
 			e, err := ParseSpecExpr(r.text)
@@ -749,5 +765,28 @@ func identsOf(e SExpr, out map[string]bool) {
 		for k := range inner {
 			out[k] = true
 		}
+	}
+}
+
+// callsOf collects the names of the functions applied in an expression.
+func callsOf(e SExpr, out map[string]bool) {
+	switch x := e.(type) {
+	case SSel:
+		callsOf(x.X, out)
+	case SIndex:
+		callsOf(x.X, out)
+		callsOf(x.I, out)
+	case SCall:
+		out[x.Fn] = true
+		for _, a := range x.Args {
+			callsOf(a, out)
+		}
+	case SUnary:
+		callsOf(x.X, out)
+	case SBinary:
+		callsOf(x.X, out)
+		callsOf(x.Y, out)
+	case SQuant:
+		callsOf(x.Body, out)
 	}
 }
